@@ -1159,6 +1159,9 @@ class Network:
             ticket = peer_init_message.ticket
             try:
                 connection_future = self._expected_connection_futures[ticket]
+                if connection_future.done():
+                    # Cancelled, but its removal callback did not run yet
+                    raise KeyError(ticket)
             except KeyError:
                 logger.warning(
                     "%s:%d : unknown pierce firewall ticket : %d",
